@@ -313,7 +313,7 @@ def short(scn):
             if node.get('sdt', 1) != 1:
                 a.append('sdt%s' % node['sdt'])
             if node.get('verbose'):
-                a.append('v')
+                a.append('v' + ('W' if node.get('watch') else ''))
             req = ('<' + ','.join(node['req'])) if node['req'] else ''
             return '%s%s%s[%s]{%s}' % (node['name'], flags, req, ' '.join(a),
                                        ' '.join(r(n) for n in node['nodes']))
@@ -323,6 +323,8 @@ def short(scn):
             flags += '8'
         if node['k'] == 'coro':
             flags += 'c'
+        elif node['k'] == 'print':
+            flags += 'p'
         s = '%s%s:%s' % (node['name'], flags, node['dur'])
         if node['out'] == 'raise':
             s += 'X'
